@@ -225,6 +225,42 @@ s = open(p).read()
 a, b = s.index('<!-- SEED-TABLE-BEGIN -->'), s.index('<!-- SEED-TABLE-END -->')
 s = s[:a] + '<!-- SEED-TABLE-BEGIN -->\n' + table + '\n' + s[b:]
 open(p, 'w').write(s)
+# per-round summary (between the SEED-SUMMARY markers)
+from collections import defaultdict
+R = defaultdict(lambda: dict(n=0, conf=0, arr=0, fin=0, other=[]))
+OTHER = {"C03-r4a": "C12", "C03-r4b": "C07", "C03-r5a": "C05 and C01 (`S15`)", "C05-r5a": "C19", "C08-r3b": "C10", "C05-r2b": "C04 (quick) / C05 `S16` (thorough)",
+         "C01-r2a": "C15", "C15-r2b": "C15"}
+for d in sorted(glob.glob('/verif/seeded/*/meta.json')):
+    m = json.load(open(d))
+    k = os.path.basename(os.path.dirname(d))
+    mm = re.search(r'-(r\d)?[ab]$', k)
+    rd = mm.group(1) or 'r1'
+    x = R[rd]
+    x['n'] += 1
+    if not m.get('confirmed'):
+        continue
+    x['conf'] += 1
+    if rd == 'r1':
+        arr = m.get('caught_before_strengthening', m.get('caught_by_quick')) and k not in ("C18-a", "C18-b")
+    else:
+        arr = m.get('baseline_check_quick_exit') == 1
+    if arr:
+        x['arr'] += 1
+    if m.get('final_caught_by_quick'):
+        x['fin'] += 1
+    else:
+        x['other'].append(k + (" (caught by " + OTHER[k] + ")" if k in OTHER else ""))
+lines = []
+for rd in sorted(R):
+    x = R[rd]
+    lines.append(f"* round {rd[1:]}: {x['n']} changes delivered, {x['conf']} confirmed; caught by the property's own quick check when they arrived: "
+                 f"**{x['arr']}**; at the end: **{x['fin']}**" + (("; not by the own check: " + ", ".join(x['other'])) if x['other'] else ""))
+summary = "\n".join(lines)
+if '<!-- SEED-SUMMARY-BEGIN -->' in s:
+    a2, b2 = s.index('<!-- SEED-SUMMARY-BEGIN -->'), s.index('<!-- SEED-SUMMARY-END -->')
+    s = s[:a2] + '<!-- SEED-SUMMARY-BEGIN -->\n' + summary + '\n' + s[b2:]
+    open(p, 'w').write(s)
+print(summary)
 n = len(rows)
 caught_first = sum('| caught |' in r for r in rows)
 print(n, "rows;", caught_first, "caught on arrival")
